@@ -8,10 +8,15 @@
           of Gen/Mtu.v, tracker capacity <cap>, <t ms> = clock reading of the packet) and the stateless TLS path
           (Model/AnalyzerReports.v tcp_ustep, tls_ufn); packets joined by ';', the 8 groups by '^':
           '-' | signature text | <mtu>~<M+link hex|X|D> | uptime token | TLS token.
-   SPEC : spec_run_enabled over the same concrete analyzers, '*' where an enabled analyzer rejects the packet. *)
+   SPEC : spec_run_enabled over the same concrete analyzers, '*' where an enabled analyzer rejects the packet.
+   kind U (fully concrete composition, HTTP may be enabled):  <t><h><l><m><d> U <cap> <t ms>:<frame hex> ...
+   as K, with the packet-level HTTP analyzer model (Model/HttpAnalyzer.v, flow table of capacity <cap>) and the
+   HTTP/1 + HTTP/2 parser pair of Model/HttpH2.v as the HTTP stage (Model/HttpGlue.v http_ustep); the two HTTP groups
+   print '-' | Q.<..> | R.<..> (HTTP/1, as EC09) | Q2 <request line without auth/scheme/lang> | R2 <response line>
+   (matching of browsers / web servers is outside the model: only the observed signature part is compared). *)
 From Coq Require Import List NArith ZArith Bool.
 From Coq Require Import Strings.Byte.
-From HN Require Import Base.Bytes Model.Unified Spec.UnifiedSpec Model.AnalyzerReports Gen.Mtu.
+From HN Require Import Base.Bytes Base.Cache Model.Unified Spec.UnifiedSpec Model.AnalyzerReports Model.HttpAnalyzer Model.HttpGlue Model.HttpH2 Gen.Mtu.
 From HN Require Model.TcpAnalyzer.
 Import ListNotations.
 
@@ -97,9 +102,35 @@ Definition run_k (cf : cfg) (cap : N) (es : list TcpAnalyzer.tcp_event) : bytes 
   out3 (join (bs ";") (map show_k_packet model))
        (join (bs ";") (map (fun o => match o with Some gs => show_k_packet gs | None => bs "*" end) spec)) false.
 
+(* ---- kind U: all three stages concrete ---- *)
+Definition u_http := http_ustep parse_req_12nl parse_resp_12.
+Fixpoint u_spec_run (cf : cfg) (cap : N) (st : TcpAnalyzer.tcp_state) (sh : http_state) (es : list TcpAnalyzer.tcp_event)
+  : list (option (list shown)) :=
+  match es with
+  | [] => []
+  | e :: r => spec_packet cf (snd (tcp_ustep mtu_table cap st e)) (if http_en cf then snd (u_http sh e) else Some (absent 2)) (tls_ufn e)
+              :: u_spec_run cf cap (if tcp_en cf then fst (tcp_ustep mtu_table cap st e) else st)
+                            (if http_en cf then fst (u_http sh e) else sh) r
+  end.
+Definition run_u (cf : cfg) (cap : N) (es : list TcpAnalyzer.tcp_event) : bytes :=
+  if negb (ctor_ok cf) then out3 (bs "CTORERR") (bs "CTORERR") false else
+  let model := unified_run TcpAnalyzer.tcp_event TcpAnalyzer.tcp_state http_state (tcp_ustep mtu_table cap) u_http tls_ufn cf
+                           ([], cache_new cap) es in
+  let spec := u_spec_run cf cap [] (cache_new cap) es in
+  out3 (join (bs ";") (map show_k_packet model))
+       (join (bs ";") (map (fun o => match o with Some gs => show_k_packet gs | None => bs "*" end) spec)) false.
+
 Definition run_line (l : bytes) : bytes :=
   match fsplit_on sp l with
   | c :: n :: rest =>
+      if bytes_eqb n (bs "U") then
+        match parse_cfg c, rest with
+        | Some cf, capt :: evs =>
+            match read_N capt, parse_kevents evs with
+            | Some cap, Some es => run_u cf cap es
+            | _, _ => bs "BADCASE" end
+        | _, _ => bs "BADCASE" end
+      else
       if bytes_eqb n (bs "K") then
         match parse_cfg c, rest with
         | Some cf, capt :: evs =>
